@@ -1610,14 +1610,29 @@ impl AnnotationStore {
                 (Selector::DataSetSelector(dataset), Selector::DataSetSelector(dataset2)) => {
                     dataset.cmp(dataset2)
                 }
-                //some canonical ordering for selectors
+                (
+                    Selector::DataKeySelector(dataset, key),
+                    Selector::DataKeySelector(dataset2, key2),
+                ) => dataset.cmp(dataset2).then(key.cmp(key2)),
+                (
+                    Selector::AnnotationDataSelector(dataset, data),
+                    Selector::AnnotationDataSelector(dataset2, data2),
+                ) => dataset.cmp(dataset2).then(data.cmp(data2)),
+                //some canonical ordering for selectors of different kinds: text (incl. annotations with text),
+                //resources, datasets, annotations, keys, data
                 (Selector::TextSelector(..), _) => Ordering::Less,
                 (_, Selector::TextSelector(..)) => Ordering::Greater,
+                (Selector::AnnotationSelector(_, Some(_)), _) => Ordering::Less,
+                (_, Selector::AnnotationSelector(_, Some(_))) => Ordering::Greater,
                 (Selector::ResourceSelector(..), _) => Ordering::Less,
                 (_, Selector::ResourceSelector(..)) => Ordering::Greater,
                 (Selector::DataSetSelector(..), _) => Ordering::Less,
                 (_, Selector::DataSetSelector(..)) => Ordering::Greater,
-                // catch-all for anything that shouldn't occur at this point anyway:
+                (Selector::AnnotationSelector(..), _) => Ordering::Less,
+                (_, Selector::AnnotationSelector(..)) => Ordering::Greater,
+                (Selector::DataKeySelector(..), _) => Ordering::Less,
+                (_, Selector::DataKeySelector(..)) => Ordering::Greater,
+                // catch-all for anything that shouldn't occur at this point anyway (complex and ranged selectors):
                 (a, b) => panic!("Unable to compare order for selector {:?} vs {:?}", a, b),
             });
         }
